@@ -462,4 +462,37 @@ def runSession (regH regX : List (Option PStr × Cfg)) (interp : Subst → PStr 
             | some doc => doc.renderAt regH regX path arg interp mode
             | none => .badReceiver) :: r.2)
 
+/-! ### copies: `Tag.copy_self` / `__deepcopy__` / `__copy__` (element.py:1805-1840, :1770-1803)
+
+    `copy_self` builds the clone with `is_xml=self._is_xml`: every copied tag records, explicitly, the flavour its original
+    had where it stood when the copy was made; a copied string is `type(self)(self)` and has no flavour of its own. -/
+
+mutual
+/-- the copy of `n`, `inherited` being what the walk from `n`'s parent gives (`_is_xml` of the parent) -/
+def XNode.copyWith (inherited : Bool) : XNode → XNode
+  | .str _ k v => .str none k v
+  | .tag kn n p as cbe pre ks => .tag (some (kn.getD inherited)) n p as cbe pre (copyWithL (kn.getD inherited) ks)
+def copyWithL (inherited : Bool) : List XNode → List XNode
+  | [] => []
+  | k :: ks => k.copyWith inherited :: copyWithL inherited ks
+end
+
+/-- the flavour `_is_xml` finds for the element at `path` below `n`, when the walk above `n` gives `inherited` -/
+def flavAt (inherited : Bool) : XNode → List Nat → Bool
+  | n, [] => n.known.getD inherited
+  | n, i :: rest =>
+    match n.kids[i]? with
+    | some k => flavAt (n.known.getD inherited) k rest
+    | none => n.known.getD inherited      -- (no such child: the flavour of the last element on the path)
+
+mutual
+/-- no string carries a flavour of its own (`NavigableString` never sets `known_xml`) -/
+def XNode.stringsPlain : XNode → Bool
+  | .str kn _ _ => kn.isNone
+  | .tag _ _ _ _ _ _ ks => stringsPlainL ks
+def stringsPlainL : List XNode → Bool
+  | [] => true
+  | k :: ks => k.stringsPlain && stringsPlainL ks
+end
+
 end BS.Formatter
